@@ -42,6 +42,7 @@ type XCase struct {
 	Decs     []XDec  `json:"decs,omitempty"`    // controlled mode
 	FailPct  int     `json:"failpct,omitempty"` // free-running mode: percentage of creations that fail
 	Yields   int     `json:"yields,omitempty"`  // free-running mode: Gosched calls inside the create function
+	SlowDelete bool  `json:"slow_delete,omitempty"` // free-running mode: the delete callback takes tens of microseconds
 	History  []XRec  `json:"history,omitempty"` // filled in on failure
 }
 
@@ -88,6 +89,9 @@ type xrun struct {
 	// free mode
 	free     bool
 	testName string
+	// free mode with slow delete callbacks: the per-key "one live value" monitor is meaningful only when a value counts as
+	// deleted from the moment its callback STARTS being late - see create()
+	freeSlowDelete bool
 }
 
 func xKeyName(i int) string { return string(rune('a' + i)) }
@@ -108,6 +112,13 @@ func (x *xrun) create(k string) (int, error) {
 	rec := x.cur[id]
 	if rec != nil {
 		rec.Tried++
+	}
+	// a creation for k is only ever started when k is not resident, and a value leaves the cache only through its delete
+	// callback: so no value created for k earlier may still be waiting for its callback now
+	for v, kk := range x.created {
+		if kk == k && x.deleted[v] == 0 {
+			x.setViol("lru:creation-while-old-value-alive", "a creation for key %q was started while value #%d of the same key had not yet been passed to the delete callback", k, v)
+		}
 	}
 	var gate chan bool
 	if !x.free {
@@ -143,6 +154,12 @@ func (x *xrun) create(k string) (int, error) {
 
 func (x *xrun) onDelete(k string, v int) {
 	id := gated.Goid()
+	if x.freeSlowDelete { // a delete callback that takes its time (free-running mode only)
+		for i := 0; i < 3+x.c.Yields*4; i++ {
+			runtime.Gosched()
+		}
+		time.Sleep(time.Duration(20*(1+x.c.Yields)) * time.Microsecond)
+	}
 	x.mu.Lock()
 	defer x.mu.Unlock()
 	x.deleted[v]++
@@ -221,6 +238,7 @@ func (x *xrun) do(w int, op XOp) {
 func newXrun(c XCase, free bool) (*xrun, error) {
 	x := &xrun{c: c, free: free, testName: map[bool]string{false: "TestC09Controlled", true: "TestC09Free"}[free], cur: map[uint64]*XRec{}, inFl: map[string]int{}, created: map[int]string{}, deleted: map[int]int{},
 		gates: map[string]chan bool{}, inGet: map[string]int{}}
+	x.freeSlowDelete = free && c.SlowDelete
 	cache, err := lru.NewCache[string, int](c.Cap, x.create, x.onDelete)
 	x.cache = cache
 	return x, err
